@@ -132,7 +132,7 @@ PROPS["C17"] = {
     "rule": ("one run = a stored state built by 0-12 tape-generated writes, then 5-25 read/syntax requests over all 15 read entry points (REST GET/POST check with and without status mirroring, gRPC check, REST and gRPC batch check, expand, list, namespaces, OPL syntax check), "
              "valid and malformed, with names the server has never seen, unknown namespaces, odd max-depth values and bad page tokens; a quarter of the requests come from the hostile generator of C13 (mutated REST requests and gRPC messages with absent sub-messages, read and syntax endpoints only). After EACH request: the SQL-seam statement log of the request contains no INSERT/UPDATE/DELETE/REPLACE/DDL, "
              "and a dump of keto_relation_tuples and keto_uuid_mappings through a separate unwrapped sqlite connection is identical to before. mode 'fresh': the same on a registry created for the run, none of whose lazily built members exists yet; in half of the runs the first request it ever sees is a read, and writes keep arriving between the reads (the protected state is re-dumped after each). non-trivial = the protected state has rows; distinct = hash of (initial dump, request/response history)."),
-    "probes": ["probe_first_request_is_a_read", "probe_write_between_reads", "reads_ok", "reads_rejected", "probe_reads_hit_database", "req_hostile-rest", "req_hostile-grpc"] + ["req_" + k for k in ["check-get", "check-get-openapi", "check-post", "check-post-openapi", "check-grpc", "batch-rest", "batch-grpc", "expand-rest", "expand-grpc", "list-rest", "list-grpc", "namespaces-rest", "namespaces-grpc", "syntax-rest", "syntax-grpc"]],
+    "probes": ["probe_first_request_is_a_read", "probe_write_between_reads", "probe_write_verb_on_read_port", "reads_ok", "reads_rejected", "probe_reads_hit_database", "req_hostile-rest", "req_hostile-grpc"] + ["req_" + k for k in ["check-get", "check-get-openapi", "check-post", "check-post-openapi", "check-grpc", "batch-rest", "batch-grpc", "expand-rest", "expand-grpc", "list-rest", "list-grpc", "namespaces-rest", "namespaces-grpc", "syntax-rest", "syntax-grpc"]],
     "real": REAL_S, "stub": STUB_S,
     "fault_kinds": {},
     "assumptions": ["the statement classifier at the SQL seam recognises write statements by their leading keyword"],
@@ -290,14 +290,14 @@ PROPS["C14"] = {
     "modes": [{"name": "", "runs": {"quick": 5000, "thorough": 100000}, "chunk": 250},
               {"name": "handlers", "runs": {"quick": 2500, "thorough": 60000}, "chunk": 250},
               {"name": "statements", "runs": {"quick": 1500, "thorough": 40000}, "chunk": 150},
-              {"name": "race", "runs": {"quick": 70, "thorough": 2000}, "chunk": 5, "race": True}],
+              {"name": "race", "runs": {"quick": 120, "thorough": 3000}, "chunk": 5, "race": True}],
     "rule": ("mode '' (tier E): one run = a fixed generated store and configuration whose single-request answer cannot depend on the schedule (rewrite-free or ||-only, limits non-binding) and 2-6 requests (check, batch check of 2-4 tuples, expand, list) started together in one synctest bubble; "
              "4 (quick) / 12 (thorough) tape-chosen interleavings of ALL their storage calls; every concurrent result must equal the result of the same request run alone. "
              "mode 'handlers' (tier E): the requests are REST requests through the real check / expand / list handlers (on the L1-wrapped dependencies, private routers) inside the bubble, among them 2-3 checks of the SAME tuple with different max-depth values on a chain where depth decides; every (status, body) must equal the one obtained alone. In a third of the executions of mode '' the request in front is cancelled by its client at a tape-chosen instant (preferably one with an identical twin in flight); the others must answer as alone. "
              "mode 'statements': mode handlers with every SQL statement and every acquisition of pop's SQLite mutex as additional scheduling points (requests interleave inside one storage call), and in half of the runs an earlier list / expand request has met an I/O, busy or context fault at one of its SQL statements first: what a failed request leaves behind in the process must not reach the others. "
              "mode 'race' (-race build, GOMAXPROCS=1): a FRESH registry per run (no member warmed up) receives a burst of 3-8 concurrent read and write requests through the real routers and gRPC servers; the race detector works on happens-before, so unordered accesses are flagged without real parallelism; "
              "a report halts the worker and is confirmed in a fresh process. non-trivial = the request set mixes at least two kinds (race: every burst); distinct = hash of (config, tuples, requests)."),
-    "probes": ["probe_one_request_cancelled", "probe_cancelled_request_has_twin", "probe_requests_interleaved", "kind_check", "kind_batch", "kind_expand", "kind_list", "concurrent_requests", "probe_shared_group_gadget", "probe_duplicate_requests", "stragglers_completed_late", "probe_depth_decides", "handler_requests"],
+    "probes": ["probe_burst_on_config_with_permissions", "probe_incomplete_check_in_burst", "probe_unknown_namespace_in_burst", "probe_one_request_cancelled", "probe_cancelled_request_has_twin", "probe_requests_interleaved", "kind_check", "kind_batch", "kind_expand", "kind_list", "concurrent_requests", "probe_shared_group_gadget", "probe_duplicate_requests", "stragglers_completed_late", "probe_depth_decides", "handler_requests"],
     "real": REAL_E + ["race mode: real routers, gRPC servers over bufconn, freshly constructed registry, Go race detector"], "stub": STUB_E,
     "fault_kinds": {},
     "assumptions": ["the race clause is the weakest part: incidental mutex edges can hide a race in one order; absence of a report is weak evidence", "single-request answers are schedule-independent for the generated configurations (no && / !)"],
